@@ -64,8 +64,9 @@ def _evidence(prop, tier, seed, agg, n_viol, known_hits, samples, extra=None):
         ],
         "wall_s": round(agg.wall, 2), "violations": n_viol,
     }
-    os.makedirs(os.path.join(env.VERIF, "evidence"), exist_ok=True)
-    with open(os.path.join(env.VERIF, "evidence", f"{prop}.json"), "w") as f:
+    evdir = os.environ.get("VERIF_EVIDENCE_DIR") or os.path.join(env.VERIF, "evidence")
+    os.makedirs(evdir, exist_ok=True)
+    with open(os.path.join(evdir, f"{prop}.json"), "w") as f:
         json.dump(ev, f, indent=1, default=repr)
 
 
@@ -136,7 +137,8 @@ def cmd_check(prop, tier):
         k = next(x for x in findings["known"] if x["id"] == kid)
         print(f"KNOWN-FINDING: property={k['property']} {k['description']} (hit {n}x)")
     rc = 0
-    os.makedirs(os.path.join(env.VERIF, "replays"), exist_ok=True)
+    rdir = os.environ.get("VERIF_REPLAY_DIR") or os.path.join(env.VERIF, "replays")
+    os.makedirs(rdir, exist_ok=True)
     for sig, lst in unlisted[:5]:
         idx, v = lst[0]
         case = runner.make_case(prop, seed, idx, tier)
@@ -147,7 +149,7 @@ def cmd_check(prop, tier):
             continue
         sv = next(x for x in res["violations"] if runner.signature(x) == sig)
         # a shrunk case must not have turned into a listed finding
-        path = os.path.join(env.VERIF, "replays", f"{prop}-{seed}-{idx}.json")
+        path = os.path.join(rdir, f"{prop}-{seed}-{idx}.json")
         small = dict(small)
         small["expect"] = {"signature": list(sig), "final_hash": res["final_hash"], "digest": res["digest"], "violation": sv}
         small["shrink_runs"] = nruns
